@@ -234,21 +234,50 @@ example :
     (∀ p : Bytes, maxFrameSize < p.length + 23 → webrtcEncode (.protocol p) true = none) := by
   refine ⟨by decide, by decide, by decide, by decide, by decide, webrtcEncode_proto_true_too_long⟩
 
-/-- **A fallback name is reported as the main protocol.** If the negotiated name is a fallback
-name of `main`, the substream is reported for `main` with `fallback = Some(negotiated)`; a main name
-is reported as itself with `fallback = None`. -/
-theorem fallback_reported_as_main (protocols : List Bytes) (fallbackNames : List (Bytes × Bytes))
-    (negotiated : Bytes) :
-    (∀ main, fallbackNames.lookup negotiated = some main → main ∈ protocols →
-      reportSubstreamOpen protocols fallbackNames negotiated = some (main, some negotiated)) ∧
-    (fallbackNames.lookup negotiated = none → negotiated ∈ protocols →
-      reportSubstreamOpen protocols fallbackNames negotiated = some (negotiated, none)) := by
+/-- **A fallback name is reported as the main protocol.** `installed` are the protocols given to
+`ProtocolSet::new` as `(main name, fallback names)`. If the negotiated name is a fallback name of
+`main` — and of no other installed protocol, otherwise hash-map iteration order decides —
+`report_substream_open` reports the substream to `main` with `fallback = Some(negotiated)`. A name
+that is no fallback name is reported as itself with `fallback = None` if it is installed, and
+refused (`ProtocolNotSupported`) if not. -/
+theorem fallback_reported_as_main (installed : List (Bytes × List Bytes)) (negotiated : Bytes)
+    (hu : ∀ e1 ∈ installed, ∀ e2 ∈ installed, negotiated ∈ e1.2 → negotiated ∈ e2.2 → e1.1 = e2.1) :
+    (∀ e ∈ installed, negotiated ∈ e.2 → reportInstalled installed negotiated = some (e.1, some negotiated)) ∧
+    ((∀ e ∈ installed, negotiated ∉ e.2) →
+      (negotiated ∈ installed.map (·.1) → reportInstalled installed negotiated = some (negotiated, none)) ∧
+      (negotiated ∉ installed.map (·.1) → reportInstalled installed negotiated = none)) := by
   constructor
-  · intro main h hm; simp [reportSubstreamOpen, h, hm]
-  · intro h hm; simp [reportSubstreamOpen, h, hm]
+  · intro e he hmem
+    have hl := lookup_build installed negotiated
+    cases hf : installed.find? (fun e => negotiated ∈ e.2) with
+    | none =>
+      have := List.find?_eq_none.mp hf e he
+      simp [hmem] at this
+    | some e' =>
+      have he' := List.mem_of_find?_eq_some hf
+      have hm' : negotiated ∈ e'.2 := by simpa using List.find?_some hf
+      have heq : e'.1 = e.1 := hu e' he' e he hm' hmem
+      rw [hf] at hl
+      have hin : e.1 ∈ installed.map (·.1) := List.mem_map.mpr ⟨e, he, rfl⟩
+      simp only [Option.map_some, heq] at hl
+      simp only [reportInstalled, reportSubstreamOpen, hl, hin, if_true]
+  · intro hno
+    have hl := lookup_build installed negotiated
+    have hf : installed.find? (fun e => negotiated ∈ e.2) = none :=
+      List.find?_eq_none.mpr (fun e he => by simpa using hno e he)
+    rw [hf] at hl
+    simp only [Option.map_none] at hl
+    constructor
+    · intro hin; simp only [reportInstalled, reportSubstreamOpen, hl, hin, if_true]
+    · intro hin; simp only [reportInstalled, reportSubstreamOpen, hl, hin, if_false]
 
-example : reportSubstreamOpen [[47, 109]] [([47, 102], [47, 109])] [47, 102] = some ([47, 109], some [47, 102]) ∧
-    reportSubstreamOpen [[47, 109]] [([47, 102], [47, 109])] [47, 109] = some ([47, 109], none) := by decide
+/-- Non-vacuity: `/m` with fallbacks `/f`, `/g` and `/x` without any. -/
+example :
+    reportInstalled [([47, 109], [[47, 102], [47, 103]]), ([47, 120], [])] [47, 103] = some ([47, 109], some [47, 103]) ∧
+    reportInstalled [([47, 109], [[47, 102], [47, 103]]), ([47, 120], [])] [47, 109] = some ([47, 109], none) ∧
+    reportInstalled [([47, 109], [[47, 102], [47, 103]]), ([47, 120], [])] [47, 120] = some ([47, 120], none) ∧
+    reportInstalled [([47, 109], [[47, 102], [47, 103]]), ([47, 120], [])] [47, 122] = none ∧
+    unambiguousB [([47, 109], [[47, 102], [47, 103]]), ([47, 120], [])] = true := by decide
 
 end Litep2pVerif.Props.C03
 
